@@ -139,3 +139,18 @@ pub fn permutations(n: usize) -> Vec<Vec<usize>> {
     rec(&mut Vec::new(), &mut vec![false; n], n, &mut out);
     out
 }
+
+/// Size ladder: 2^k-1, 2^k, 2^k+1 for every k with 2^k <= max (from 2^7), plus a few round
+/// numbers in between — thresholds that lie between "small" and "a few large samples".
+pub fn ladder(max: usize) -> Vec<usize> {
+    let mut v = vec![100usize, 300, 1000, 3000, 5000, 10_000, 50_000, 100_000];
+    let mut p = 128usize;
+    while p <= max {
+        v.extend([p - 1, p, p + 1]);
+        p *= 2;
+    }
+    v.retain(|x| *x <= max);
+    v.sort();
+    v.dedup();
+    v
+}
